@@ -179,3 +179,84 @@ def _(c):
 @spec
 def is_list(interp, v):
     return isinstance(v, (SymSeq, PyList))
+
+
+# ---------------------------------------------------------------------------
+# loaders: the selection the user gave reaches the collection unchanged, one entry per input path
+
+contract("toasty.collection.SimpleFitsCollection.__init__")(lambda c: c.inline())
+
+SEL_CASES = [{"hdu": h, "key": w} for _, h in HDU_CASES for _, w in KEY_CASES]
+
+
+def _sel_value(interp, v, name):
+    from pyvc.types import fresh_of_type
+    return fresh_of_type(interp, v[5:], name) if isinstance(v, str) and v.startswith("type:") else v
+
+
+def load_paths_setup(interp, path):
+    from pyvc.types import fresh_of_type
+    from pyvc.values import Inst
+    case = interp._case
+    me = Inst("CollectionLoader", module="toasty.collection", fields={
+        "hdu_index": _sel_value(interp, case["hdu"], "hdu_index"), "wcs_key": _sel_value(interp, case["key"], "wcs_key"),
+        "blankval": z3.Real(fresh_name("blankval"))})
+    return {"self": me, "paths": fresh_of_type(interp, "seq[str]", "paths")}
+
+
+def _same_seq(interp, a, b):
+    if isinstance(a, SymSeq) and isinstance(b, SymSeq):
+        k = z3.Int(fresh_name("k"))
+        eq = ops.equals(interp, a.at(k), b.at(k))
+        return ops.conj([ops.equals(interp, a.length, b.length),
+                         z3.ForAll([k], z3.Implies(z3.And(k >= 0, k < z3num(a.length)), eq)) if not isinstance(eq, bool) else eq])
+    if a is None or b is None:
+        return a is None and b is None
+    return ops.equals(interp, a, b)
+
+
+def collection_fields_trace(paths_arg, sel):
+    def hook(m, path, fr, env, outcome, value, exc):
+        from pyvc.values import Inst
+        ok = outcome == "return" and isinstance(value, Inst) and value.cls == "SimpleFitsCollection"
+        path.oblige(m.oblname("returns_a_fits_collection"), z3.BoolVal(bool(ok)), kind="trace", assume_after=False)
+        if not ok:
+            return
+        want_paths, want_h, want_k, want_b = sel(m, fr)
+        g = _same_seq(m, value.fields["_paths"], want_paths)
+        path.oblige(m.oblname("one_entry_per_input_path_in_input_order"), g if not isinstance(g, bool) else z3.BoolVal(g), kind="trace", assume_after=False)
+        for fld, want, nm in (("_hdu_index", want_h, "hdu_selection"), ("_wcs_key", want_k, "wcs_key_selection"), ("_blankval", want_b, "blank_value")):
+            g = _same_seq(m, value.fields[fld], want)
+            path.oblige(m.oblname("%s_reaches_the_collection_unchanged" % nm), g if not isinstance(g, bool) else z3.BoolVal(g), kind="trace", assume_after=False)
+    return hook
+
+
+_lps = contract("toasty.collection.CollectionLoader.load_paths")
+
+
+@_lps
+def _(c):
+    c.inline()      # callers (collection.load) execute it in place; it is verified on its own here
+    c.cases(*SEL_CASES)
+    c.setup(load_paths_setup)
+    c.on_path(collection_fields_trace("paths", lambda m, fr: (
+        fr.entry_env.lookup("paths"), fr.entry_env.lookup("self").fields["hdu_index"],
+        fr.entry_env.lookup("self").fields["wcs_key"], fr.entry_env.lookup("self").fields["blankval"])))
+
+
+def load_setup(interp, path):
+    from pyvc.types import fresh_of_type
+    case = interp._case
+    return {"input": fresh_of_type(interp, "seq[str]", "input"), "hdu_index": _sel_value(interp, case["hdu"], "hdu_index"),
+            "wcs_key": _sel_value(interp, case["key"], "wcs_key"), "blankval": z3.Real(fresh_name("blankval"))}
+
+
+_ld = contract("toasty.collection.load")
+
+
+@_ld
+def _(c):
+    c.cases(*SEL_CASES)
+    c.setup(load_setup)
+    c.on_path(collection_fields_trace("input", lambda m, fr: (
+        fr.entry_env.lookup("input"), fr.entry_env.lookup("hdu_index"), fr.entry_env.lookup("wcs_key"), fr.entry_env.lookup("blankval"))))
